@@ -4,7 +4,7 @@
    Section hypotheses of the lemmas (assumptions, not axioms): a backend batch is atomic (the database
    only ever is [apply_all] of a prefix of the batch list); executing a block is a function of state
    and block ([exec]); a header-hash page holds more than one hash. *)
-From NG Require Import Common.Tactics Node.Crash Node.CrashProofs Node.Stages Node.StagesProofs Node.StagesWitness Node.StagesMain Node.CrashGC Node.CrashGCProofs Node.CrashGCWitness Node.ResetExact Node.SyncRestore Node.SyncRestoreProofs Node.StorageSync Node.StorageSyncProofs.
+From NG Require Import Common.Tactics Node.Crash Node.CrashProofs Node.Stages Node.StagesProofs Node.StagesWitness Node.StagesMain Node.CrashGC Node.CrashGCProofs Node.CrashGCWitness Node.ResetExact Node.SyncRestore Node.SyncRestoreProofs Node.StorageSync Node.StorageSyncProofs Node.BlockCache.
 Open Scope N_scope.
 
 Section C02.
@@ -187,6 +187,48 @@ Proof.
   split; [exact (proj1 order_windows_code)|].
   pose proof order_window_no_edge as (A & B & C & _). repeat split; assumption.
 Qed.
+
+(* ---- one block and the WRITE CACHE (Node/BlockCache.v) ----
+   The flush of Run's timer is an atomic snapshot of the shared write cache and can fall anywhere inside a block
+   addition; what makes a database batch carry nothing or everything of a block is that storeBlock merges its two
+   private layers (block, transactions, transfer logs, tip pointer / contract storage, trie nodes, state root) into
+   the cache in ONE step.  For every sequence of cache transactions that are block-aligned one by one (header
+   transactions, whole blocks) with flushes anywhere between them, every batch that reaches the database is
+   block-aligned: block record i <=> state root i, a tip pointer only with its block, storage / trie nodes only with
+   a block. *)
+Theorem C02_block_reaches_cache_atomically :
+  forall (St Rt : Type) (evs : list (@cev St Rt)),
+    Forall push_ok evs -> forall cache, aligned cache -> Forall aligned (emit cache evs).
+Proof. exact (@block_reaches_cache_atomically). Qed.
+Print Assumptions C02_block_reaches_cache_atomically.
+
+(* instantiated: histories of header transactions, whole-block pushes and flushes *)
+Theorem C02_atomic_blocks_aligned :
+  forall (St Rt : Type) (exec : St -> N -> St) (root : St -> Rt) (ntx : N -> N) (l : list (list (@cev St Rt))),
+    (forall x, In x l -> x = [CFlush] \/ (exists p s i, x = blk_atomic exec root ntx p s i) \/
+                         (exists PS i, x = [CPush (hdr_writes St Rt PS i)])) ->
+    Forall aligned (emit [] (concat l)).
+Proof. exact (@atomic_blocks_aligned). Qed.
+Print Assumptions C02_atomic_blocks_aligned.
+
+(* the one push writes exactly what add_block of the crash model writes (Crash.blk_writes), key by key: the
+   theorems about batches of the model (C02_block_batch_atomic, C02_crash_prefix) speak about these pushes *)
+Theorem C02_layers_are_block :
+  forall (St Rt : Type) (exec : St -> N -> St) (root : St -> Rt) (ntx : N -> N) (d : db St Rt) p s i,
+    db_eq (apply d (aer_layer ntx i ++ state_layer exec root p s i)) (apply d (blk_writes St Rt exec root ntx p s i)).
+Proof. exact (@layers_are_block). Qed.
+Print Assumptions C02_layers_are_block.
+
+(* the variant with separated merges: a flush between them writes the tip pointer and the record of block 1 without
+   the state root of height 1; the database after that batch satisfies the node invariant at no height *)
+Theorem C02_block_reaches_cache_atomically_refuted :
+  map alignedb (emit [] wev) = [true] /\ map alignedb (emit [] wev_torn) = [false; false] /\
+  ~ Forall aligned (emit [] wev_torn) /\
+  (forall p h hh, ~ Inv (fun _ i => i) (fun s => s) 0 (fun _ => 1) 2000 wtorn p h hh).
+Proof.
+  destruct split_merges_refuted as (A & B & C). repeat split; auto. exact torn_is_no_node.
+Qed.
+Print Assumptions C02_block_reaches_cache_atomically_refuted.
 
 (* ---- the full collector: untraceable blocks and header-hash pages (Node/CrashGC.v) ----
    For every run with collector runs in any position (block records below the target deleted through the write
